@@ -1085,29 +1085,24 @@ Qed.
 (* ------------------------------------------------------------------------------------------ *)
 (* the numbers an HTML listing announces                                                        *)
 
-Lemma count_kind_filter_le b (f : node -> bool) l : count_kind b (filter f l) <= count_kind b l.
+Lemma count_kind_total l : count_kind true l + count_kind false l = N.of_nat (length l).
 Proof.
   unfold count_kind.
-  assert (H : (length (filter (fun k => Bool.eqb (n_dir k) b) (filter f l)) <=
-               length (filter (fun k => Bool.eqb (n_dir k) b) l))%nat).
-  { induction l as [|a l IH]; [apply le_n|]. cbn [filter].
-    destruct (f a); cbn [filter]; destruct (Bool.eqb (n_dir a) b); cbn [length]; lia. }
+  assert (H : (length (filter (fun k => Bool.eqb (n_dir k) true) l) +
+               length (filter (fun k => Bool.eqb (n_dir k) false) l) = length l)%nat).
+  { induction l as [|a l IH]; [reflexivity|]. cbn [filter]. destruct (n_dir a); cbn [Bool.eqb length]; lia. }
   lia.
 Qed.
 
-Lemma filter_all_true {A} (f : A -> bool) l : (forall x, In x l -> f x = true) -> filter f l = l.
-Proof.
-  induction l as [|a l IH]; intros H; [reflexivity|]. cbn [filter]. rewrite (H a (or_introl eq_refl)).
-  rewrite IH; [reflexivity|]. intros x Hx. apply H. right. exact Hx.
-Qed.
-
-(* what a listing announces is never less than what it lists, and equal if nothing in the directory is hidden *)
-Lemma listing_counts_partial fs hide pages prefix confs m req ae archive limit kids :
+(* what a listing announces is what it lists: the numbers of directories and of files among the
+   entries of the listing — the non-hidden children of the cleaned directory — which together are
+   all of them; these are the numbers the executable property asks for ([counts_ok]) *)
+Lemma listing_counts fs hide pages prefix confs m req ae archive limit kids :
   browse fs hide pages prefix confs m req ae archive limit = Listing kids ->
-  count_kind true kids <= fst (announced_counts fs (jail req)) /\
-  count_kind false kids <= snd (announced_counts fs (jail req)) /\
-  ((forall k, In k (children fs (jail req)) -> is_hidden fs hide k = false) ->
-   announced_counts fs (jail req) = (count_kind true kids, count_kind false kids)).
+  announced_counts fs hide (jail req) = (count_kind true kids, count_kind false kids) /\
+  count_kind true kids + count_kind false kids = N.of_nat (length kids) /\
+  counts_ok [fst (announced_counts fs hide (jail req)); snd (announced_counts fs hide (jail req))]
+            (filter (fun k => negb (hidden_id fs hide (n_id k))) (children fs (jail req))) = true.
 Proof.
   intros H.
   pose proof (browse_cases fs hide pages prefix confs m req ae archive limit) as C. cbv zeta in C. rewrite H in C.
@@ -1117,10 +1112,13 @@ Proof.
     - destruct C as (u & C & _). discriminate.
     - destruct C as [C _]. injection C as ->. reflexivity.
     - destruct C as [C _]. discriminate. }
-  subst kids. unfold announced_counts. cbn [fst snd].
-  split; [apply count_kind_filter_le|]. split; [apply count_kind_filter_le|].
-  intros Hnone. rewrite filter_all_true; [reflexivity|].
-  intros k Hk. rewrite (Hnone k Hk). reflexivity.
+  assert (A : announced_counts fs hide (jail req) = (count_kind true kids, count_kind false kids)).
+  { unfold announced_counts. cbv zeta. rewrite visible_kids_eq, <- E. reflexivity. }
+  split; [exact A|]. split; [apply count_kind_total|].
+  rewrite A. cbn [fst snd]. unfold counts_ok.
+  change (filter (fun k => negb (hidden_id fs hide (n_id k))) (children fs (jail req)))
+    with (filter (fun k => negb (is_hidden fs hide k)) (children fs (jail req))).
+  rewrite <- E, !N.eqb_refl. reflexivity.
 Qed.
 
 (* ------------------------------------------------------------------------------------------ *)
